@@ -25,7 +25,7 @@ the property:
   C11  sanitizer reports, crashes, a canary surviving in a forward result
 """
 import math, os, struct, re
-from vlib import build
+from vlib import build, run as vrun
 from translate import elementwise
 
 MODS = {
@@ -1412,3 +1412,97 @@ def run_family(chk, prop):
         for s in STATED_NOT_PROVED.get(p, []):
             if s not in chk.stated_not_proved:
                 chk.stated_not_proved.append(s)
+
+
+# ----------------------------------------------------------------------------
+# special values: the two backends on +-inf, NaN, subnormals, +-0 and the largest finite floats (C08: "all inputs")
+# ----------------------------------------------------------------------------
+SPECIALS = [("inf", math.inf), ("-inf", -math.inf), ("nan", math.nan), ("subnormal", 1e-40), ("-subnormal", -1e-40),
+            ("zero", 0.0), ("-zero", -0.0), ("max", 3.0e38), ("-max", -3.0e38), ("min-normal", 1.2e-38), ("three", 3.0), ("-three", -3.0)]
+
+
+def _dtok(x):
+    import struct
+    return "x%016x" % struct.unpack("<Q", struct.pack("<d", x))[0]
+
+
+def _f32_of(tok_):
+    import struct
+    return struct.unpack("<f", struct.pack("<I", int(tok_[1:], 16)))[0]
+
+
+def special_lines():
+    """(kernel key, [line for naive, line for eigen], class names per element).  Every special value sits once in the
+    vectorised part of the array (first 16 elements) and once in the scalar tail."""
+    names = [n for n, _ in SPECIALS] * 3
+    vals = [v for _, v in SPECIALS] * 3
+    n = len(vals)
+    xs = ",".join(_dtok(v) for v in vals)
+    ones = ",".join(["1"] * n)
+    out = []
+    for k in sorted(UNARY):
+        out.append((k + "_fw", "%s_fw T:%d/1:%s" % (k, n, xs), names))
+        if UNARY[k][0]:
+            out.append((k + "_bw", "%s_grad T:%d/1:%s T:%d/1:%s" % (k, n, xs, n, ones), names))
+    for k in sorted(CONST):
+        for kv in (0.5, 2.0):
+            out.append((k + "_fw", "%s_fw T:%d/1:%s K:%s" % (k, n, xs, _dtok(kv)), names))
+            out.append((k + "_bw", "%s_grad T:%d/1:%s T:%d/1:%s K:%s" % (k, n, xs, n, ones, _dtok(kv)), names))
+    for kk in (2, -2, 3):
+        out.append(("pown_fw", "pown_fw T:%d/1:%s %d" % (n, xs, kk), names))
+    for k in sorted(BINARY):
+        out.append((k + "_fw", "%s_fw T:%d/1:%s T:%d/1:%s" % (k, n, xs, n, ",".join(_dtok(v) for v in reversed(vals))), names))
+    return out
+
+
+def run_special_values(chk):
+    """Naive against Eigen, element by element: both NaN (any sign/payload) agree, equal values agree (+0 == -0),
+    finite values agree within 1e-5 relative; anything else is a backend deviation, reported once per kernel with the
+    classes of input on which it occurs."""
+    exe = build.build_harness(HARNESS)
+    cases = special_lines()
+    lines = []
+    for _, l, _ in cases:
+        lines += ["naive " + l, "eigen " + l]
+    outs, _ = vrun.run_impl(exe, lines, timeout=300)
+    chk.traces += 1
+    per_kernel = {}
+    for i, (key, l, names) in enumerate(cases):
+        a, b = outs[2 * i], outs[2 * i + 1]
+        chk.count("naive|eigen " + l[:120], a, a.startswith("ok"))
+        if not (a.startswith("ok") and b.startswith("ok")):
+            if a.split(" ")[0] != b.split(" ")[0] or a.startswith("crash") or b.startswith("crash"):
+                per_kernel.setdefault(key, {"classes": set(), "examples": []})
+                per_kernel[key]["classes"].add("status")
+                per_kernel[key]["examples"].append((l, "naive `%s` eigen `%s`" % (a[:80], b[:80])))
+            continue
+        va = [t for t in a.split(" ", 2)[2].split(" | ")[0].split(",")]
+        vb = [t for t in b.split(" ", 2)[2].split(" | ")[0].split(",")]
+        for j, (x, y) in enumerate(zip(va, vb)):
+            if x == y or x == "C" or y == "C":
+                if x != y:
+                    pass
+                else:
+                    continue
+            try:
+                fx, fy = _f32_of(x), _f32_of(y)
+            except Exception:
+                fx, fy = math.nan, 0.0
+            if fx != fx and fy != fy:
+                continue
+            if fx == fy:
+                continue
+            if not (fx != fx or fy != fy or math.isinf(fx) or math.isinf(fy)) and abs(fx - fy) <= 1e-5 * max(abs(fx), abs(fy)) + 1e-6:
+                continue        # float32 rounding of the quantities entering the formula (1 - tanh^2 at |x| = 3 cancels five digits)
+            d = per_kernel.setdefault(key, {"classes": set(), "examples": []})
+            d["classes"].add(names[j])
+            if len(d["examples"]) < 4:
+                d["examples"].append((l, "element %d (input class %s): naive %s = %r, eigen %s = %r" % (j, names[j], x, fx, y, fy)))
+    for key in sorted(per_kernel):
+        d = per_kernel[key]
+        l, ex = d["examples"][0]
+        chk.report("karith:special-values:%s" % key,
+                   "devices::Naive and devices::Eigen disagree on %s for inputs of class {%s}: %s" % (key, ", ".join(sorted(d["classes"])), "; ".join(e for _, e in d["examples"][:3])),
+                   {"family": FAMILY, "harness": HARNESS, "lines": ["naive " + l, "eigen " + l], "model_family": None,
+                    "observed": [e for _, e in d["examples"]], "input_classes": sorted(d["classes"])})
+    chk.extra_cov["special_value_kernels_compared"] = len(cases)
